@@ -6,6 +6,9 @@
                                                 guard 1: recover_g -> bytes | error
                                                 guard 0: recover -> bytes, or `beyond` when a record lies beyond the
                                                 current end of the data (the sparse extension is not modelled here)
+     wal rcalls <guard 0|1> <drop 0|1> <data> <log>  -> the file system calls of the recovery of these files
+                                                (recovery_calls; drop 1: as issued by Drop = no repair, then flush),
+                                                followed by `error` when the guard fires
    ops: (w <pos> <bytes>) | (r <len>) | f *)
 open Model
 open Util
@@ -49,4 +52,9 @@ let handle (cmd : string) (args : sexp list) : string =
      | None, "1" -> "error"
      | Some _, _ -> hex_of_bytes (recover walrev_fixed st).data
      | None, _ -> "beyond")
+  | "rcalls", [A g; A drop; A d; A w] ->
+    let st = { data = bytes_of_hex d; wal = bytes_of_hex w } in
+    let (cs, ok) = recovery_calls (g = "1") st in
+    let cs = if ok && drop = "1" then cs @ [WalSetLen O] else cs in
+    String.concat " " (List.map str_sys cs) ^ (if ok then "" else " error")
   | _ -> failwith ("wal: bad command " ^ cmd)
